@@ -130,6 +130,36 @@ def judge(desc, spec):
     return j
 
 
+def silent_rerun():
+    """success, force, recomputation while logging is switched off process-wide: afterwards the log holds nothing of the older run"""
+    import logging
+
+    import tcv
+    tcv.quiet_library()
+    out = []
+    desc = WORLDS['rec3']()
+    ex = histories.Exec(desc, records=True)
+    try:
+        ex.step(['new', 0, 'v0'])
+        ex.step(['value', 0, 'a'])
+        ex.step(['tforce', 0, 'a', False])
+        logging.disable(logging.CRITICAL)
+        try:
+            obs, exp = ex.step(['value', 0, 'a'])
+        finally:
+            logging.disable(logging.NOTSET)
+        log = obs['records']['a']['log'] or []
+        old = [l for l in log if 'gen0' in l]
+        if old:
+            out.append(('log of the latest run holds lines of an earlier run', f'recomputation (generation 1) with logging disabled: log still shows {log}'))
+        ri = obs['records']['a']['run_info'] or {}
+        if ri.get('log') != [{'tcv': 'A', 'gen': 1, 'seq': 0}, {'tcv': 'A', 'gen': 1, 'seq': 1}]:
+            out.append(('run info records are not those of the producing run', f'{ri.get("log")}'))
+    finally:
+        ex.close()
+    return out
+
+
 def plan(tier):
     out = []
     for name in (['rec3', 'mount2', 'nestlog'] if tier == 'quick' else ['rec3', 'mount2', 'chain3', 'nestlog']):
@@ -162,6 +192,9 @@ def run(tier, seed):
         res.add('distinct_nontrivial', cov['distinct_observation_vectors'])
         res.violations.extend(r.violations)
         res.sample({'world': desc['name'], 'faults': sp['faults'], 'variants': sp['variants']})
+    res.add('evaluations')
+    for kind, msg in silent_rerun():
+        res.violations.append(Violation(f'rec3: {kind}', msg, {'world': 'rec3', 'silent': True, 'hist': []}))
     res.coverage['traces_validated_against_impl'] = res.coverage['evaluations']
     res.coverage['exhaustive'] = True
     res.coverage['rule'] = ('every history over {new, value, task force, fail(task, raise|raise-after-logging|wrong-type)} in one process up to the stateless depth, merged BFS beyond; after every '
@@ -174,6 +207,8 @@ def replay(case):
     import tcv
 
     tcv.quiet_library()
+    if case.get('silent'):
+        return [Violation(f'rec3: {k}', m, case) for k, m in silent_rerun()]
     desc = WORLDS[case['world']]()
     vs, c, ov = histories.run_history(desc, case['hist'], judge(desc, None), records=True)
     return vs
